@@ -1,5 +1,6 @@
 From Coq Require Import List Arith NArith Bool.
-From GIV.Lib Require Import Regex Str.
+From GIV.Lib Require Import Regex Str Backtrack.
+From GIV.Gen Require Import UnicodeRe.
 From GIV.Model Require Import C02 C10 C10B.
 Import ListNotations.
 Local Open Scope N_scope.
@@ -14,4 +15,17 @@ Fixpoint join_lines (sep : str) (ls : list str) : str :=
 Definition plain_line (l : str) : Prop := Forall (fun c => c <> 10 /\ c <> 13) l.
 
 Definition sep_ok (sep : str) : Prop := sep = [10] \/ sep = [13] \/ sep = [13; 10].
+
+
+(* a text without line feed (what reaches the patterns of the parser: lines are cut at line feeds) *)
+Definition no_lf (x : str) : Prop := Forall (fun ch => ch <> 10) x.
+
+(* the state of the line loop but for block.indentation and the diagnostics *)
+Definition lst_c (st : lst) := (l_blk st, l_warned st, l_pindent st, l_part st, l_cur st, l_rseen st, l_exc st).
+
+Definition sp_cls : cls := CRanges re_space_ranges.
+
+Definition blanks (ind : str) : Prop := Forall (fun x => cls_mem sp_cls x = true /\ x <> 10) ind.
+
+Definition asterisk_lines (inds rests : list str) : list str := map (fun p => fst p ++ 42 :: snd p) (combine inds rests).
 
